@@ -27,6 +27,9 @@ pub enum TidClass {
     RealPlusExtra { k: u8, #[serde(with = "hexser")] extra: Vec<u8> },
     /// the first n (< 8) bytes of such a transaction id
     RealTruncated { k: u8, n: u8 },
+    /// such a transaction id with one of its two leading bytes changed (an action id >= 2^24:
+    /// same message id, same low action bytes, but an action prefix the node never used)
+    RealPrefixFlipped { k: u8, byte: bool, mask: u8 },
 }
 
 #[derive(Clone, Debug, Serialize, Deserialize)]
@@ -87,6 +90,7 @@ impl Stage for Unasked {
             2 => any::<u64>().prop_map(TidClass::ForeignAction),
             3 => (0u8..4, vec(any::<u8>(), 1..5)).prop_map(|(k, extra)| TidClass::RealPlusExtra { k, extra }),
             1 => (0u8..4, 0u8..8).prop_map(|(k, n)| TidClass::RealTruncated { k, n }),
+            3 => (0u8..4, any::<bool>(), 1u8..=255).prop_map(|(k, byte, mask)| TidClass::RealPrefixFlipped { k, byte, mask }),
         ];
         let at = prop_oneof![2 => Just(0u32), 3 => 0u32..3000, 3 => 0u32..20_000];
         let inj = prop_oneof![
@@ -317,6 +321,13 @@ impl Stage for Unasked {
                                 Some((to, t)) => (t[..(*keep as usize).min(7)].to_vec(), Some(to), "real-tid-truncated"),
                                 None => (vec![1, 2, 3], None, "short-tid"),
                             },
+                            TidClass::RealPrefixFlipped { k, byte, mask } => match pick(*k) {
+                                Some((to, mut t)) if t.len() == 8 => {
+                                    t[*byte as usize] ^= *mask;
+                                    (t, Some(to), "real-tid-with-foreign-leading-byte")
+                                }
+                                _ => (vec![0x10, 2, 3, 4, 5, 6, 7, 8], None, "foreign-action"),
+                            },
                         };
                         classes.insert(class);
                         let src = match (from_contact, real_to) {
@@ -370,7 +381,7 @@ impl Stage for Unasked {
         })
     }
     fn rule(&self) -> String {
-        "one real node (serving/read-only, v4/v6) with 0..6 answering and 0..3 silent contacts and 0..3 literal routers (answering or silent); answering parties name up to 260 fresh silent addresses, and optionally the node's own id, router addresses, duplicates, one id under two addresses, in every node list; optionally a search is started; 2..23 injections at generated times from 0 ms (before any request) to 20 s: unsolicited queries of every kind from fresh strangers, and responses (carrying unique values, tokens and named nodes) whose transaction id is short (0..7 B), long (9..32 B), 8 bytes with an action id >= 2^20, a transaction id the node really just sent plus 1..4 extra bytes, or a truncated real one, from a stranger or from the address the real query went to; and queries from the silent addresses that answering parties name (hearsay contacts, by then possibly dropped). Oracle after every injection, 40 s later and after find_node probes: contacts contain only configured contacts and addresses named by parties that were asked; never a stranger, a name from a foreign response, a router, the own id; good only for parties that answered; the search yields only values from genuine answers; a query never brings its sender (back) into the contacts. Non-trivial: the node had contacts or a running search, and >= 2 injection classes".into()
+        "one real node (serving/read-only, v4/v6) with 0..6 answering and 0..3 silent contacts and 0..3 literal routers (answering or silent); answering parties name up to 260 fresh silent addresses, and optionally the node's own id, router addresses, duplicates, one id under two addresses, in every node list; optionally a search is started; 2..23 injections at generated times from 0 ms (before any request) to 20 s: unsolicited queries of every kind from fresh strangers, and responses (carrying unique values, tokens and named nodes) whose transaction id is short (0..7 B), long (9..32 B), 8 bytes with an action id >= 2^20, a transaction id the node really just sent plus 1..4 extra bytes, a truncated real one, or a real one with one of its two leading bytes changed (same message id, action id >= 2^24), from a stranger or from the address the real query went to; and queries from the silent addresses that answering parties name (hearsay contacts, by then possibly dropped). Oracle after every injection, 40 s later and after find_node probes: contacts contain only configured contacts and addresses named by parties that were asked; never a stranger, a name from a foreign response, a router, the own id; good only for parties that answered; the search yields only values from genuine answers; a query never brings its sender (back) into the contacts. Non-trivial: the node had contacts or a running search, and >= 2 injection classes".into()
     }
 }
 
